@@ -3,7 +3,7 @@ from vlib.genidx import genidx_step   # tie A: the index / hyperslab / util-fn f
 
 CHECK = Check(
     "C01",
-    props_modules=["OW.Props.C01"],
+    props_modules=["OW.Props.C01", "OW.Props.C01Bulk"],
     pre_steps=[genidx_step],
     families=[Family("ND", args=["prop=C01"])],
     level="proof",
@@ -29,19 +29,25 @@ CHECK = Check(
                  "(C03Full: ReachOff / OffOK / offset_transfer carry them over)",
                  "C-backed int / uint arrays: values within 32 bits (otherwise KF-C01-c-int-width, scope ND:c-int-width: a written value is not the value read back; "
                  "OW/Nd/CInt.lean narrow32_id_signed / _unsigned)"],
-    partial=["interleaved_writes_visible_partial: histories are sequences of `Set` only (WriteOp = one Set request; OW/Proofs/NdC01Seq.lean). Histories that interleave Apply / "
-             "ApplySlice / CopyFrom are not covered by a theorem; their footprints are (apply_footprint, applySlice_footprint, copyFrom_footprint: exactly which "
-             "storage cells change and to what), from which visibility through any other view follows cell by cell with get_reads_cell, but the composed statements "
-             "apply_visible / applySlice_visible / copyFrom_visible are not stated",
-             "footprints of the rank-specialised accessors Set1 / Apply1 (and Get1/2/3, Set2/3) are not stated in C01 (Set1 on flat views: OW/Proofs/WrapperNd.lean "
-             "flat_set1; otherwise by the ND correspondence: set1 / apply1 / get2 / set3 ops)"],
+    partial=["interleaved_writes_visible_partial (OW/Props/C01.lean; histories of `Set` only, WriteOp = one Set request) is kept and is now a special case "
+             "(sets_history_is_bulk_history) of interleaved_bulk_writes_visible (OW/Props/C01Bulk.lean): after ANY history of Set | Apply | ApplySlice | CopyFrom requests "
+             "(WOp, runOps = the model's own operations folded), a Get through any reachable view returns the value of the LAST request that addressed the storage cell "
+             "(readBackOps; a copied value = what the source read at that moment, by the same rule), else the initial content. Single writes: apply_visible, "
+             "applySlice_visible, copyFrom_visible (footprint + get_reads_cell), op_visible (one request of any kind). NOT proved: two-array requests (ApplySlice / "
+             "CopyFrom) whose source and destination are views of the SAME storage - overlapping or not - are outside every theorem (hypothesis `hdisj : src.sid != a.sid` "
+             "of applySlice_footprint / copyFrom_footprint, carried into WOp.OK; overlapping: the Go memmove fast path and the element loop differ, example in C01.lean; "
+             "disjoint views of one storage: true but not proved); CopyFrom between differently shaped arrays; Apply with step <= 0",
+             "rank-specialised accessors: set1_footprint, apply1_footprint, apply1_eq_apply, rank1_requests_are_requests (OW/Props/C01Bulk.lean) cover Set1 / Apply1 on 1-D "
+             "views, also inside histories; Get1 on views of rank > 1 and Get2/3, Set2/3 (not in the Lean model) have no theorem - ND correspondence only "
+             "(set1 / apply1 / get2 / set3 ops; Set1 on flat views also OW/Proofs/WrapperNd.lean flat_set1)"],
 )
 
 META = dict(
     category="proof",
     text="Lean 4 theorems over the n-d array model: slice_index/chain_index (element i of slice(loc,dims,step) is element "
          "loc+i*step of the parent, any rank, any nesting depth, any steps), index in-bounds/injective, exact write "
-         "footprints of Set/Apply/ApplySlice/CopyFrom on both back-ends, visibility through every overlapping view; "
+         "footprints of Set/Apply/ApplySlice/CopyFrom (and Set1/Apply1) on both back-ends, visibility of each of them through every overlapping view and after "
+         "every history interleaving the four kinds of write (two-array writes between different storages); "
          "kernel-checked for all shapes/chains/element types. Model tied to the code by exact state-level correspondence "
          "on exhaustive small-scope slice chains + random op programs + a malformed stream.",
     design_ref="DESIGN.md §6 C01",
